@@ -22,6 +22,22 @@ def showFind (r : Option (List Val)) : String :=
   | none => "absent"
   | some vs => toString vs.length ++ (if vs.isEmpty then "" else " | " ++ " | ".intercalate (vs.map Val.show))
 
+/-- C18 `import_touches_only_addressed` on the implementation's own before/after rows: along the
+    key path, everything but the addressed entry is unchanged (same keys in the same order, same
+    cells); `fuel` bounds the depth. -/
+def changedElsewhere : Nat → List (Bytes × Val) → List (Bytes × Val) → List Bytes → Bool
+  | 0, _, _, _ => false
+  | _, before, after, [] => (Val.row (Members.ofList before)).show != (Val.row (Members.ofList after)).show
+  | fuel + 1, before, after, k :: rest =>
+    before.map Prod.fst != after.map Prod.fst ||
+    (before.zip after).any fun (b, a) =>
+      if b.1 != k then b.2.show != a.2.show
+      else if rest.isEmpty then false
+      else
+        match asRow b.2, asRow a.2 with
+        | some sb, some sa => changedElsewhere fuel sb sa rest
+        | _, _ => b.2.show != a.2.show
+
 def runPath (rowS op pathS valS extS implS : String) : Result :=
   let env : Env := ⟨genTables, parseExt extS⟩
   match rowOf rowS, unhexTok pathS with
@@ -53,7 +69,19 @@ def runPath (rowS op pathS valS extS implS : String) : Result :=
           let ms := "e=" ++ (match e with | some e => e.name | none => "-") ++ " | row=" ++ (Val.row (Members.ofList row')).show
           -- exactly the addressed value changes: every other top-level entry is untouched
           let d := ms != implS
-          if !d then ⟨"S", ""⟩ else ⟨"D", s!"import {pathS} {valS} on [{rowS}]: impl [{implS}] model [{ms}]"⟩
+          let implRow : Option (List (Bytes × Val)) :=
+            match implS.splitOn " | row=" with
+            | [_, r] => rowOf r
+            | _ => none
+          let p : Option String :=
+            match implRow with
+            | some after => if changedElsewhere 16 row after keys then some "import-changed-another-cell" else none
+            | none => none
+          match d, p with
+          | false, none => ⟨"S", ""⟩
+          | true, none => ⟨"D", s!"import {pathS} {valS} on [{rowS}]: impl [{implS}] model [{ms}]"⟩
+          | _, some c => ⟨(if d then "D" else "") ++ "P",
+              s!"import {pathS} {valS} on [{rowS}]: impl [{implS}] model [{ms}] violates C18: key={c}"⟩
         | .err .ext => ⟨"X", "model abstains"⟩
         | .err e => ⟨"D", s!"model error {e.name}"⟩
         | .panic s => ⟨"D", s!"model panic {s}"⟩
